@@ -605,7 +605,8 @@ def check_C01(tier, seed):
     rows = run_generic(ctx, "c01", grams, "sP", cmp_c01)
     import tracechk
     sub = [dict(g) for g in grams if tracechk.eligible(g)]
-    tracechk.validate(ctx, "c01", sub[::4] if tier == "quick" else sub, seed, 3 if tier == "quick" else 12, rows=rows)
+    sub = (sub[::4] if tier == "quick" else sub) + families.fam_json(tier, seed)       # + long JSON documents on the repository's benchmark grammar
+    tracechk.validate(ctx, "c01", sub, seed, 3 if tier == "quick" else 12, rows=rows)
     return ctx.finish(rule=RULE_A + "Decisive: verdict and consumed byte offset of try_parse_partial.")
 
 
